@@ -529,7 +529,24 @@ def crossed_roles(fi: FuncInfo) -> list:
             pairs.append((fi.name, x.value))
         # both arms of a conditional expression are values of the place — and so is the name whose presence its test
         # asks about (`self.zmin if zmin is NotSet else zmin`)
-        pairs = [(pl, arm) for pl, v in pairs for arm in ([v.body, v.orelse] + ([v.test.left] if isinstance(v.test, ast.Compare) and len(v.test.ops) == 1 and isinstance(v.test.ops[0], (ast.Is, ast.IsNot)) and isinstance(v.test.left, ast.Name) else []) if isinstance(v, ast.IfExp) else [v])]
+        # a conditional expression: the fallback idiom `rd = dr if rd is None else rd` (one arm is the place's own member)
+        # is left alone like its statement form; otherwise both arms are values of the place. The name whose presence the
+        # test asks about is a value of the place as well (`self.zmin if zmax is NotSet else zmin`)
+        def _arms(pl, v):
+            if not isinstance(v, ast.IfExp):
+                return [v]
+            out_ = []
+            own = _role_tokens(pl)
+            arm_tokens = [set().union(*[_role_tokens(y.id if isinstance(y, ast.Name) else y.attr) for y in ast.walk(a_) if isinstance(y, (ast.Name, ast.Attribute))] or [set()]) for a_ in (v.body, v.orelse)]
+            fam_own = [fam & own for fam in _FAMILIES if len(fam & own) == 1]
+            fallback = any(any(f <= t for f in fam_own) for t in arm_tokens)
+            if not fallback:
+                out_ += [v.body, v.orelse]
+            if isinstance(v.test, ast.Compare) and len(v.test.ops) == 1 and isinstance(v.test.ops[0], (ast.Is, ast.IsNot)) and isinstance(v.test.left, ast.Name):
+                out_.append(v.test.left)
+            return out_
+
+        pairs = [(pl, arm) for pl, v in pairs for arm in _arms(pl, v)]
         for place, val in pairs:
             if not _thin(val):
                 continue
